@@ -85,6 +85,8 @@ pub struct Hist {
     pub leaked_ok: usize,
     pub next_tag: u32,
     pub next_payload: u32,
+    /// C18 runs: what is observed in a step that called an unsafe fast path refutes C18
+    pub retag_unchecked: bool,
 }
 impl Hist {
     pub fn new(hist: u64) -> Self {
@@ -96,6 +98,7 @@ impl Hist {
             leaked_ok: 0,
             next_tag: 1,
             next_payload: 100,
+            retag_unchecked: false,
         }
     }
     pub fn begin_step(&mut self, op: &'static str, descr: String) {
@@ -114,6 +117,7 @@ impl Hist {
     /// record a violation of property `prop`
     pub fn viol(&mut self, prop: &str, what: &str, msg: String) {
         let (_, _, op) = ledger::ctx();
+        let prop = if self.retag_unchecked && op == "insert_unchecked" && prop != "MEM" { "C18" } else { prop };
         ledger::violation(prop, format!("{}@{}", what, op), msg);
         self.failed = true;
     }
@@ -129,4 +133,19 @@ macro_rules! dispatch_n {
 #[macro_export]
 macro_rules! call_n {
     ($f:ident, $F:ty, $N:literal, ($($a:expr),*)) => { $f::<$F, $N>($($a),*) };
+}
+
+/// Property that ledger-raised memory / ownership violations are attributed to in a run that
+/// decides `prop`: the property itself when its statement is about memory, otherwise C02.
+pub fn mem_prop(prop: &str) -> &'static str {
+    match prop {
+        "C03" => "C03",
+        "C04" => "C04",
+        "C10" => "C10",
+        "C13" => "C13",
+        "C17" => "C17",
+        "C18" => "C18",
+        "C19" => "C19",
+        _ => "C02",
+    }
 }
